@@ -85,8 +85,8 @@ func countW(as []Action) int {
 func (r *Runner) Evaluate(sc Scenario, pushedPlain map[int]bool) {
 	c := r.C
 	all := append(append([]Action{}, sc.Actions...), sc.FinalActions()...)
-	out := sc.Run(nil, false, all)
-	line := sc.Line("mgr") + " " + actionsString(sc.FinalActions())
+	out := sc.Run(nil, false, all, nil)
+	line := sc.Line("mgr", out.World) + " " + actionsString(sc.FinalActions())
 	if out.Err != "" {
 		c.Note("harness: scenario not evaluated (%s): %s", out.Err, line)
 		c.Count("harness.unsettled")
@@ -98,6 +98,9 @@ func (r *Runner) Evaluate(sc Scenario, pushedPlain map[int]bool) {
 	for _, dc := range out.Dead {
 		// no scenario makes a channel inaccessible, so a worker must never stop
 		c.Fail(strings.ToLower(r.Opt.Prop)+"-channel-worker-stopped", line, fmt.Sprintf("the worker of channel %d returned from Run although the channel stayed accessible: its updates are no longer handled; trace: %s", dc, FormatTrace(out.Trace)))
+	}
+	if out.Workers != "" {
+		c.Fail(strings.ToLower(r.Opt.Prop)+"-channel-workers", line, out.Workers+"; trace: "+FormatTrace(out.Trace))
 	}
 	if out.Retries > 0 {
 		c.Count("harness.barrier-resent")
@@ -147,12 +150,31 @@ func (r *Runner) Evaluate(sc Scenario, pushedPlain map[int]bool) {
 		c.Count("served." + sv.Kind)
 	}
 	c.Count(fmt.Sprintf("channels.%d", len(sc.C0)))
+	for ch := range sc.C0 {
+		switch _, met := out.World.Created[ch]; {
+		case met:
+			c.Count("channel.met-without-stored-state-through-" + out.World.MetVia[ch])
+		case sc.Late[ch] && out.World.live[ch]:
+			c.Count("channel.stored-hash-learnt-late-then-met-through-" + out.World.MetVia[ch])
+		case !out.World.live[ch]:
+			c.Count("channel.never-got-a-worker")
+		}
+	}
 	if r.Opt.MonitorOnly {
 		return
 	}
 	c.Eval(line, gap)
 	impl := relevant(out.Trace)
-	fp, fq, fc := snapWords(init)
+	fp, fq, _ := snapWords(init)
+	// the implementation's trace is judged for the sequences that had a worker
+	liveStored := map[int64]int{}
+	for ch, v := range init.Chans {
+		if out.World.live[ch] {
+			liveStored[ch] = v
+		}
+	}
+	never := func(int64) bool { return false }
+	fc := storedWord(liveStored, never) + " " + createdWord(out.World.Created, never)
 	p := pending{line: line, input: line, impl: impl, world: out.World,
 		compare:  out.Elapsed-time.Duration(countW(all))*650*time.Millisecond < 400*time.Millisecond,
 		implSafe: len(v3) == 0, implDone: len(v2) == 0, wantWF: true,
@@ -186,9 +208,15 @@ func (r *Runner) restart(sc Scenario, first Outcome, i int, line string) {
 	c := r.C
 	snap := first.Snaps[i]
 	fin := sc.FinalActions()
-	out := sc.Run(&snap, true, fin)
-	fp, fq, fc := snapWords(snap)
-	rline := strings.Join([]string{"restart", fp, fq, fc, fmt.Sprint(sc.P0), fmt.Sprint(sc.Q0), chanWords(sc), logWords(sc), actionsString(fin)}, " ")
+	known := map[int64]bool{}
+	for ch := range first.World.Known {
+		known[ch] = true
+	}
+	out := sc.Run(&snap, true, fin, known)
+	fp, fq, _ := snapWords(snap)
+	stillLate := func(ch int64) bool { return sc.Late[ch] && !known[ch] }
+	rline := strings.Join([]string{"restart", fp, fq, storedWord(snap.Chans, stillLate), createdWord(out.World.Created, stillLate),
+		fmt.Sprint(sc.P0), fmt.Sprint(sc.Q0), chanWords(sc), logWords(sc), actionsString(fin)}, " ")
 	input := fmt.Sprintf("%s ## crash after trace[%d]=%s, then %s", line, i, first.Trace[i], rline)
 	if out.Err != "" {
 		c.Note("harness: restart not evaluated (%s): %s", out.Err, input)
@@ -234,8 +262,12 @@ func (r *Runner) restart(sc Scenario, first Outcome, i int, line string) {
 		}
 	}
 	seen := map[string]bool{}
+	firstInit := first.World.InitialSnapshot()
 	for _, en := range out.World.Log {
-		if en.Kind == KPlain || en.Soft() || !out.World.tracked(en) || before[en.ID] || after[en.ID] || tl[en.Seq()] || en.Pos <= initialOf(out.World, en.Seq()) {
+		// a channel counts if both runs had a worker for it; its sequence starts where the first run
+		// started it (stored state, or the position it was met at)
+		if en.Kind == KPlain || en.Soft() || !out.World.tracked(en) || !first.World.tracked(en) || before[en.ID] || after[en.ID] || tl[en.Seq()] ||
+			en.Pos <= baseOf(first.World, firstInit, en.Seq()) {
 			continue
 		}
 		key := "c03-restart-lost-update"
@@ -479,6 +511,31 @@ func Fixed() []Scenario {
 		{P0: 10, Q0: 0, C0: map[int64]int{5: 5}, Log: []Entry{{ID: 1, Kind: KOther, Pos: 10, Count: 0}, {ID: 2, Kind: KMsg, Pos: 11, Count: 1}, {ID: 3, Kind: KOther, Pos: 11, Count: 0}, {ID: 4, Kind: KMsg, Pos: 12, Count: 1},
 			{ID: 5, Kind: KChMsg, Chan: 5, Pos: 6, Count: 1}, {ID: 6, Kind: KChOther, Chan: 5, Pos: 6, Count: 0}, {ID: 7, Kind: KChMsg, Chan: 5, Pos: 7, Count: 1}},
 			Actions: []Action{{Op: "p", IDs: []int{1}}, {Op: "e", N: 7}, {Op: "T"}, {Op: "CT", C: 5}}},
+		// channels the storage has never heard of. Met through a live update (count 1): the initial
+		// channel state is written, the worker subscribes from there
+		{P0: 10, Q0: 0, C0: map[int64]int{5: 5}, Fresh: map[int64]bool{5: true}, Log: []Entry{{ID: 1, Kind: KChMsg, Chan: 5, Pos: 6, Count: 1}, {ID: 2, Kind: KChMsg, Chan: 5, Pos: 7, Count: 1}},
+			Actions: []Action{{Op: "p", IDs: []int{1}}, {Op: "p", IDs: []int{2}}}},
+		// … through an update that covers two positions, in the middle of the channel's log (what
+		// came before is not this client's business), then a gap and its recovery
+		{P0: 10, Q0: 0, C0: map[int64]int{5: 5}, Fresh: map[int64]bool{5: true}, Log: []Entry{{ID: 1, Kind: KChMsg, Chan: 5, Pos: 6, Count: 1}, {ID: 2, Kind: KChOther, Chan: 5, Pos: 8, Count: 2},
+			{ID: 3, Kind: KChMsg, Chan: 5, Pos: 9, Count: 1}, {ID: 4, Kind: KChMsg, Chan: 5, Pos: 10, Count: 1}},
+			Actions: []Action{{Op: "e", N: 1}, {Op: "p", IDs: []int{2}}, {Op: "p", IDs: []int{4}}, {Op: "F"}}},
+		// … through an update that covers no position (count 0), and through a container that holds
+		// two of the channel's updates in the wrong order
+		{P0: 10, Q0: 0, C0: map[int64]int{5: 5, 8: 20}, Fresh: map[int64]bool{5: true, 8: true}, Log: []Entry{{ID: 1, Kind: KChOther, Chan: 5, Pos: 5, Count: 0}, {ID: 2, Kind: KChMsg, Chan: 5, Pos: 6, Count: 1},
+			{ID: 3, Kind: KChMsg, Chan: 8, Pos: 21, Count: 1}, {ID: 4, Kind: KChMsg, Chan: 8, Pos: 22, Count: 1}},
+			Actions: []Action{{Op: "p", IDs: []int{1}}, {Op: "p", IDs: []int{2}}, {Op: "p", IDs: []int{4, 3}}}},
+		// … through updates forwarded inside the difference of another channel and inside the common difference
+		{P0: 10, Q0: 0, C0: map[int64]int{5: 5, 8: 20, 11: 3}, Fresh: map[int64]bool{8: true, 11: true}, Log: []Entry{{ID: 1, Kind: KChMsg, Chan: 8, Pos: 21, Count: 1}, {ID: 2, Kind: KChMsg, Chan: 5, Pos: 6, Count: 1},
+			{ID: 3, Kind: KChOther, Chan: 11, Pos: 5, Count: 2}, {ID: 4, Kind: KMsg, Pos: 11, Count: 1}},
+			Actions: []Action{{Op: "e", N: 4}, {Op: "X", C: 5, IDs: []int{1}}, {Op: "CT", C: 5}, {Op: "X", C: 0, IDs: []int{3}}, {Op: "T"}}},
+		// a stored channel whose access hash is unknown at the start: not loaded, its updates are
+		// dropped (one hash-restoring request each) until the hash is known; then the first update
+		// starts a worker from the stored pts without writing anything. The same for a channel
+		// that is not stored either.
+		{P0: 10, Q0: 0, C0: map[int64]int{5: 5, 8: 20}, Fresh: map[int64]bool{8: true}, Late: map[int64]bool{5: true, 8: true}, Log: []Entry{{ID: 1, Kind: KChMsg, Chan: 5, Pos: 6, Count: 1}, {ID: 2, Kind: KChMsg, Chan: 8, Pos: 21, Count: 1},
+			{ID: 3, Kind: KChMsg, Chan: 5, Pos: 7, Count: 1}, {ID: 4, Kind: KChMsg, Chan: 8, Pos: 22, Count: 1}},
+			Actions: []Action{{Op: "p", IDs: []int{1}}, {Op: "p", IDs: []int{2}}, {Op: "K", C: 5}, {Op: "K", C: 8}, {Op: "p", IDs: []int{3}}, {Op: "p", IDs: []int{4}}}},
 		// a gap filled by a late arrival; a duplicate; sliced recovery
 		{P0: 10, Q0: 0, C0: map[int64]int{}, Log: []Entry{{ID: 1, Kind: KMsg, Pos: 11, Count: 1}, {ID: 2, Kind: KOther, Pos: 13, Count: 2}, {ID: 3, Kind: KMsg, Pos: 14, Count: 1}, {ID: 4, Kind: KMsg, Pos: 15, Count: 1}},
 			Actions: []Action{{Op: "p", IDs: []int{2}}, {Op: "p", IDs: []int{1}}, {Op: "p", IDs: []int{1}}, {Op: "e", N: 2}, {Op: "sl", N: 1}, {Op: "T"}}},
